@@ -181,7 +181,11 @@ def gen_tree(rng, prof=None, depth=0, idgen=None, top=True, maxdepth=None):
     spec['sdt'] = rng.choice(p.get('sdts', [1, 1, 0, 2, None]))
     spec['critical'] = rng.random() < p.get('p_sched_critical', 0.6)
     spec['forever'] = (not top) and rng.random() < p.get('p_forever_sched', 0.1)
-    spec['verbose'] = rng.random() < p.get('p_verbose', 0.05)
+    spec['verbose'] = rng.random() < p.get('p_verbose', 0.08)
+    if rng.random() < 0.3:
+        spec['style'] = 'incremental'
+    if top and rng.random() < 0.3:
+        spec['entry'] = 'co_run'
     if spec['verbose'] and rng.random() < 0.5:
         spec['watch'] = True
     if top:
@@ -200,6 +204,8 @@ def gen_tree(rng, prof=None, depth=0, idgen=None, top=True, maxdepth=None):
             job['outcome'] = 'raise' if rng.random() < p.get('p_raise', 0.25) else 'return'
             if job['outcome'] == 'raise' and rng.random() < 0.4:
                 job['exc'] = rng.choice(['timeout', 'key', 'custom'])
+            if job['outcome'] == 'return' and rng.random() < 0.2:
+                job['retval'] = rng.choice(['none', 'false', 'zero', 'empty'])
             job['cdur'] = rng.choice(p.get('cdurs', [0, 0, 0, 1, 2]))
             job['cyields'] = rng.choice([0, 0, 1])
             job['sdur'] = rng.choice(p.get('sdurs', [0, 0, 0, 1, 3]))
